@@ -26,6 +26,12 @@ exec-ed, wrapped by the real boltons.funcutils.wraps / update_wrapper, and compa
                       another signature, and the product of an earlier boltons wraps(..., injected=[p]).
 * forms               injected=p as str as well as [p]; injected/expected given explicitly as None / [] / () / {};
                       the decorator returned by wraps(...) is applied a second time: same own signature again.
+* wrapper             part "wrappers": what is handed to wraps / update_wrapper as the wrapper is not only
+                      def wrapper(*a, **k) but every kind of callable: functools.partial(generic_helper, f), a def
+                      spelled out with f's parameter list and look-alike defaults (1.0 for 1, a fresh list),
+                      functools.partial(f), boltons partial / InstancePartial, an object with __call__, a bound method,
+                      a lambda, a def already decorated with functools.wraps(f).  Part "metadata" also passes the
+                      keyword options (hide_wrapped, update_dict, inject_to_varkw, build_from=f) explicitly.
 
 Nothing is sampled.  VERIF_SEED only chooses which cases are written as samples.
 """
@@ -299,6 +305,30 @@ def metadata_family(tier):
     return specs
 
 
+def wrappers_family(tier):
+    """Part "wrappers": the shapes of the signature family, sync and async, once without annotations and with int
+    defaults, once fully annotated with None / identity-only / mutable defaults."""
+    quick = tier == 'quick'
+    max_pos = 3 if quick else 4
+    max_kwo = 2
+    modes = [('none', 'int'), ('all', 'mixed')]
+    specs = []
+    for is_async in (0, 1):
+        for ann, dvals in modes:
+            for npos in range(max_pos + 1):
+                for ndef in range(npos + 1):
+                    for va in (0, 1):
+                        for nk in range(max_kwo + 1):
+                            for kwo in itertools.product((0, 1), repeat=nk):
+                                for vk in (0, 1):
+                                    specs.append({'npos': npos, 'ndef': ndef, 'va': va, 'kwo': list(kwo), 'vk': vk,
+                                                  'ann': ann, 'async': is_async, 'dvals': dvals})
+    specs.sort(key=lambda s: (s['npos'] + len(s['kwo']) + s['va'] + s['vk'], s['async'], s['ann'] != 'none',
+                              s['ndef'] + sum(s['kwo'])))
+    return specs, {'positional_or_keyword': [0, max_pos], 'keyword_only': [0, max_kwo], 'var_positional': [0, 1],
+                   'var_keyword': [0, 1], 'async': [0, 1], 'annotation_modes(annotations,default values)': modes}
+
+
 def defaults_family(tier):
     """Part "defaults": 2..3 (thorough 4) positional-or-keyword parameters of which the last 2..n have defaults, each
     default drawn from a pool - every assignment; with and without a defaulted keyword-only parameter (and, in
@@ -378,14 +408,60 @@ def expected_forms(tier, named=0):
 EMPTY_FORMS = ('none', 'list', 'tuple_dict')     # injected=None, expected=None / [] , [] / (), {} given explicitly
 
 
-def variants_for(spec, names, tier, metadata_only=False):
+OPTIONS = ({'hide_wrapped': True}, {'update_dict': False}, {'build_from': 'f'}, {'inject_to_varkw': False},
+           {'hide_wrapped': False, 'update_dict': True, 'inject_to_varkw': True})
+# part "wrappers": update_wrapper / injected / expected variants get call shapes for functions with <= 2 (thorough: 3)
+# named parameters; wraps(f)(wrapper) gets all call shapes for the first two kinds (partial of a helper, spelled-out
+# def), for the other kinds on functions with <= 3 named parameters (thorough: all); beyond: signature and metadata
+WRAPPER_CALLS_LIMIT = {'quick': 2, 'thorough': 3}
+WRAPPER_KIND_CALLS_LIMIT = {'quick': 3, 'thorough': 99}
+
+
+def variants_for_wrappers(names, tier):
+    """Part "wrappers": every kind of wrapper object, plain (wraps and update_wrapper) and - for the kinds that can
+    record what arrives - with the last named parameter injected and with one parameter added."""
+    named = names['pos'] + names['kwo']
+    few = len(named) <= WRAPPER_CALLS_LIMIT[tier]
+    out = []
+    for wk in WRAPPER_KINDS:
+        v = {'api': 'wraps', 'wk': wk}
+        if wk not in WRAPPER_KINDS[:2] and len(named) > WRAPPER_KIND_CALLS_LIMIT[tier]:
+            v['calls'] = 'none'
+        out.append(v)
+        v = {'api': 'update_wrapper', 'wk': wk}
+        if not few:
+            v['calls'] = 'none'
+        out.append(v)
+    for wk in RECORDER_KINDS:
+        extra = [{'api': 'wraps', 'wk': wk, 'expected': {'form': 'dict', 'n': 1, 'default': 'int'}}]
+        if named:
+            extra.append({'api': 'wraps', 'wk': wk, 'injected': named[-1]})
+            extra.append({'api': 'update_wrapper', 'wk': wk, 'injected': named[0], 'iform': 'str'})
+        for v in extra:
+            if not few:
+                v['calls'] = 'none'
+            out.append(v)
+    return out
+
+
+def variants_for(spec, names, tier, metadata_only=False, part=None):
+    if part == 'wrappers':
+        return variants_for_wrappers(names, tier)
     out = [{'api': 'wraps'}, {'api': 'update_wrapper'}]
+    named = names['pos'] + names['kwo']
     if metadata_only:
         for form in EMPTY_FORMS:
             out.append({'api': 'wraps', 'empty': form})
         out.append({'api': 'update_wrapper', 'empty': 'list'})
+        if not spec.get('prior'):
+            # the keyword options of wraps / update_wrapper given explicitly: same signature, metadata and calls
+            # (build_from only through update_wrapper: wraps() passes its own build_from=None)
+            for i, opts in enumerate(OPTIONS):
+                apis = ('wraps', 'update_wrapper') if 'build_from' not in opts else ('update_wrapper',) * 2
+                out.append({'api': apis[i % 2], 'opts': opts})
+                if named:
+                    out.append({'api': apis[1 - i % 2], 'opts': opts, 'injected': named[-1]})
         return out
-    named = names['pos'] + names['kwo']
     if spec.get('dpool'):
         return variants_for_defaults(names, tier)
     for p in named:
@@ -429,6 +505,9 @@ def variants_for_defaults(names, tier):
     for p in named:
         out.append({'api': 'wraps', 'injected': p})
     out.append({'api': 'update_wrapper', 'injected': named[-1], 'iform': 'str'})
+    # a wrapper spelled out with the parameter list of f and look-alike defaults; a partial of a generic helper
+    out.append({'api': 'wraps', 'wk': 'explicit'})
+    out.append({'api': 'update_wrapper', 'wk': 'partial_other', 'injected': named[0]})
     for seq in itertools.permutations(named, 2):
         v = {'api': 'wraps', 'injected': list(seq)}
         if len(named) > LIST_CALLS_LIMIT[tier]:
@@ -577,6 +656,151 @@ def sig_difference(own, ref_params, ref_return):
 
 
 # ----------------------------------------------------------------------------------------------------
+# the wrapper handed to wraps / update_wrapper (variant key 'wk'; part "wrappers")
+
+# what the decorator author passes as wrapper: anything callable.  'generic' is def wrapper(*a, **k).
+WRAPPER_KINDS = ('partial_other', 'explicit', 'partial_self', 'boltons_partial', 'instance_partial',
+                 'callable_object', 'bound_method', 'lambda', 'functools_wrapped')
+RECORDER_KINDS = ('partial_other', 'boltons_partial', 'callable_object', 'bound_method', 'functools_wrapped')
+PLAIN_ONLY_KINDS = ('explicit', 'partial_self')      # forwarders by construction: no recorder form
+
+
+def generic_wrapper(target, entered, is_async, plain):
+    if plain:
+        # the usual decorator body: forward everything to the wrapped function
+        if is_async:
+            async def wrapper(*a, **k):
+                entered.append((a, k))
+                return await target(*a, **k)
+        else:
+            def wrapper(*a, **k):
+                entered.append((a, k))
+                return target(*a, **k)
+    else:
+        # the call cannot be forwarded verbatim (a parameter is missing / extra): record what arrives
+        if is_async:
+            async def wrapper(*a, **k):
+                entered.append((a, k))
+                return 'reached the wrapper'
+        else:
+            def wrapper(*a, **k):
+                entered.append((a, k))
+                return 'reached the wrapper'
+    return wrapper
+
+
+def lookalike(v):
+    """A value a decorator author would write for the same default: equal, but not the same default (1.0 for 1,
+    1 for True, a fresh list); values that have no such twin are passed as they are."""
+    if isinstance(v, bool):
+        return int(v)
+    if isinstance(v, int):
+        return float(v)
+    if isinstance(v, float) and v.is_integer():
+        return int(v)
+    if type(v) in (list, dict, set):
+        return type(v)(v)
+    return v
+
+
+def explicit_wrapper(target, names, entered, is_async):
+    """def wrapper(<the parameter list of f, annotations included, defaults replaced by look-alikes>):
+           return target(<every parameter passed on>)"""
+    ns = {'__name__': MODNAME, 'target': target, 'entered': entered}
+    parts, fwd = [], []
+    seen_star = False
+    sig = names['sig']
+    for p in sig.parameters.values():
+        text = p.name
+        if p.annotation is not EMPTY:
+            ns['A_' + p.name] = p.annotation
+            text += ': A_' + p.name
+        if p.kind == inspect.Parameter.VAR_POSITIONAL:
+            text, seen_star = '*' + text, True
+            fwd.append('*' + p.name)
+        elif p.kind == inspect.Parameter.VAR_KEYWORD:
+            text = '**' + text
+            fwd.append('**' + p.name)
+        else:
+            if p.kind == KW_ONLY and not seen_star:
+                parts.append('*')
+                seen_star = True
+            if p.default is not EMPTY:
+                ns['W_' + p.name] = lookalike(p.default)
+                text += ' = W_' + p.name
+            fwd.append(p.name if p.kind == P_OR_K else '%s=%s' % (p.name, p.name))
+        parts.append(text)
+    head = 'def wrapper(%s)' % ', '.join(parts)
+    if sig.return_annotation is not EMPTY:
+        ns['A_return'] = sig.return_annotation
+        head += ' -> A_return'
+    src = '%s%s:\n    entered.append(1)\n    return %starget(%s)\n' % (
+        'async ' if is_async else '', head, 'await ' if is_async else '', ', '.join(fwd))
+    exec(compile(src, '<c13:explicit wrapper>', 'exec'), ns)
+    return ns['wrapper']
+
+
+def build_wrapper(wk, target, names, entered, is_async, plain, funcutils):
+    if wk == 'explicit':
+        assert plain
+        return explicit_wrapper(target, names, entered, is_async)
+    if wk == 'partial_self':
+        assert plain
+        return functools.partial(target)
+    # one generic body shared by many decorated functions, specialised per function
+    if plain:
+        if is_async:
+            async def invoke_it(func, *a, **k):
+                entered.append((a, k))
+                return await func(*a, **k)
+        else:
+            def invoke_it(func, *a, **k):
+                """Docstring of the generic helper."""
+                entered.append((a, k))
+                return func(*a, **k)
+    else:
+        if is_async:
+            async def invoke_it(func, *a, **k):
+                entered.append((a, k))
+                return 'reached the wrapper'
+        else:
+            def invoke_it(func, *a, **k):
+                """Docstring of the generic helper."""
+                entered.append((a, k))
+                return 'reached the wrapper'
+    if wk == 'partial_other':
+        return functools.partial(invoke_it, target)
+    if wk == 'boltons_partial':
+        return funcutils.partial(invoke_it, target)
+    if wk == 'instance_partial':
+        return funcutils.InstancePartial(invoke_it, target)
+    if wk == 'lambda':
+        return lambda *a, **k: invoke_it(target, *a, **k)
+    if wk == 'functools_wrapped':
+        # the author already applied functools.wraps to the wrapper (it has __wrapped__ and f's __dict__)
+        return functools.wraps(target)(generic_wrapper(target, entered, is_async, plain))
+    if is_async:
+        class Wrapper:
+            async def __call__(self, *a, **k):
+                return await invoke_it(target, *a, **k)
+
+            async def run(self, *a, **k):
+                return await invoke_it(target, *a, **k)
+    else:
+        class Wrapper:
+            def __call__(self, *a, **k):
+                return invoke_it(target, *a, **k)
+
+            def run(self, *a, **k):
+                return invoke_it(target, *a, **k)
+    if wk == 'callable_object':
+        return Wrapper()
+    if wk == 'bound_method':
+        return Wrapper().run
+    raise AssertionError(wk)
+
+
+# ----------------------------------------------------------------------------------------------------
 # one (function, way of wrapping)
 
 class Applied:
@@ -591,27 +815,12 @@ class Applied:
         self.is_async = bool(spec['async'])
         self.plain = not variant.get('injected') and not variant.get('expected')
         self.entered = entered = []
-        target = f
-        if self.plain:
-            # the usual decorator body: forward everything to the wrapped function
-            if self.is_async:
-                async def wrapper(*a, **k):
-                    entered.append((a, k))
-                    return await target(*a, **k)
-            else:
-                def wrapper(*a, **k):
-                    entered.append((a, k))
-                    return target(*a, **k)
+        self.wk = wk = variant.get('wk', 'generic')
+        self.records = wk != 'partial_self'      # a partial of f itself has no body of ours to record an entry
+        if wk == 'generic':
+            wrapper = generic_wrapper(f, entered, self.is_async, self.plain)
         else:
-            # the call cannot be forwarded verbatim (a parameter is missing / extra): record what arrives
-            if self.is_async:
-                async def wrapper(*a, **k):
-                    entered.append((a, k))
-                    return 'reached the wrapper'
-            else:
-                def wrapper(*a, **k):
-                    entered.append((a, k))
-                    return 'reached the wrapper'
+            wrapper = build_wrapper(wk, f, names, entered, self.is_async, self.plain, funcutils)
         self.wrapper = wrapper
         kw = {}
         if variant.get('injected'):
@@ -621,6 +830,8 @@ class Applied:
         if variant.get('empty'):
             kw = {'none': {'injected': None, 'expected': None}, 'list': {'injected': [], 'expected': []},
                   'tuple_dict': {'injected': (), 'expected': {}}}[variant['empty']]
+        for opt, val in sorted((variant.get('opts') or {}).items()):
+            kw[opt] = f if opt == 'build_from' else val
         self.w, self.error = None, None
         self.w_second, self.error_second = None, None
         try:
@@ -708,7 +919,7 @@ class Applied:
                     what = 'call:rejects a call the original accepts'
                 elif got[0] != 'ok':
                     what = 'call:outcome'
-                elif not same(got[1], want[1]) or n_entered != 1:
+                elif not same(got[1], want[1]) or (self.records and n_entered != 1):
                     what = 'call:wrapped function saw different arguments'
             else:
                 if got[0] == 'ok':
@@ -758,6 +969,11 @@ def check_variant(t, spec, variant, f, names, part, calls=None):
                                                                param_class(names, inj)))
     elif inj:
         shape = shape.replace('injected-list', 'injected-list(%s)' % list_class(names, inj))
+    if variant.get('wk'):
+        shape += '[wrapper=%s]' % variant['wk']
+    if variant.get('opts'):
+        shape += '[%s]' % ','.join('%s=%s' % (k, 'f' if k == 'build_from' else v)
+                                   for k, v in sorted(variant['opts'].items()))
     f_before = fn_snapshot(f)
     ap = Applied(spec, variant, f, names)
     # violations are grouped by signature and tag set: the only tag marks the input class of the defect the design
@@ -775,6 +991,10 @@ def check_variant(t, spec, variant, f, names, part, calls=None):
 
     t.count(nontrivial=ap.nontrivial_sig, sample=base_case)
     t.add('ways_of_wrapping:' + variant_shape(variant))
+    if variant.get('wk'):
+        t.add('wrapper_kind:' + variant['wk'])
+    for opt in variant.get('opts') or ():
+        t.add('option:' + opt)
     if variant.get('iform') or variant.get('empty'):
         t.add('argument_form:' + (variant.get('iform') or 'empty-' + variant['empty']))
     if ap.error is not None:
@@ -832,7 +1052,11 @@ def check_variant(t, spec, variant, f, names, part, calls=None):
         if want != got or type(want) is not type(got):
             label = attr if attr != '__doc__' else '__doc__(%s)' % ('None' if want is None else 'str')
             bad('metadata:' + label, want, got)
-    if getattr(w, '__wrapped__', None) is not f:
+    hidden = bool((variant.get('opts') or {}).get('hide_wrapped'))
+    if hidden:
+        pass        # the caller asked for no reference to the wrapped function; the statement's __wrapped__ clause
+                    # is about the default mode
+    elif getattr(w, '__wrapped__', None) is not f:
         bad('metadata:__wrapped__', 'the wrapped function', repr(getattr(w, '__wrapped__', '<missing>')))
     if inspect.iscoroutinefunction(f) != inspect.iscoroutinefunction(w):
         bad('async:coroutine function', inspect.iscoroutinefunction(f), inspect.iscoroutinefunction(w))
@@ -850,7 +1074,7 @@ def check_variant(t, spec, variant, f, names, part, calls=None):
             except Exception as e:
                 bad('rewrap:raised', 'a function', 'raised %s' % type(e).__name__)
                 continue
-            if fn_snapshot(w) != w_before or getattr(w, '__wrapped__', None) is not f:
+            if fn_snapshot(w) != w_before or (not hidden and getattr(w, '__wrapped__', None) is not f):
                 bad('rewrap:first-product-modified-by-the-second-wrap', w_before, fn_snapshot(w))
             if hide and hasattr(w2, '__wrapped__'):
                 bad('rewrap:hide_wrapped-ignored', 'no __wrapped__', repr(w2.__wrapped__))
@@ -878,7 +1102,7 @@ def _alarm(signum, frame):
 
 def check_spec(t, spec, tier, part):
     f, names = make_function(spec)
-    for variant in variants_for(spec, names, tier, metadata_only=(part == 'metadata')):
+    for variant in variants_for(spec, names, tier, metadata_only=(part == 'metadata'), part=part):
         old = signal.signal(signal.SIGVTALRM, _alarm)
         signal.setitimer(signal.ITIMER_VIRTUAL, VARIANT_BUDGET_S)
         try:
@@ -926,10 +1150,17 @@ def run(ctx):
                            'that compare equal without being the same (1, 1.0, True, two separate []) and from a pool '
                            'of falsy values (None, 0, False, \'\'); plain, every injected name and pair of names, '
                            'expected with an equal default / without default; all call shapes')
+    wspecs, wbounds = wrappers_family(ctx.tier)
+    inputs.run_shards(ctx, make_shard_fn(ctx.tier, 'wrappers'), chunks(wspecs, 6), part='wrappers',
+                      rule='the wrapper handed to wraps / update_wrapper is every kind of callable: a functools.partial '
+                           'of a generic helper over f, a def spelled out with f\'s parameter list and look-alike '
+                           'defaults, functools.partial(f), boltons partial / InstancePartial, an object with __call__, '
+                           'a bound method, a lambda, a def already decorated with functools.wraps(f); plain, one '
+                           'injected name, one added parameter')
     cov = ctx.coverage
     cov['rule'] = RULE
     cov['exhaustive'] = True
-    cov['functions'] = len(specs) + len(meta) + len(dflt)
+    cov['functions'] = len(specs) + len(meta) + len(dflt) + len(wspecs)
     bounds.update({
         'call_shapes': 'positional arguments 0..n_pos(+added)+2 x every subset of keyword names from '
                        '(positional-or-keyword names + keyword-only names + added names + one unknown name)',
@@ -950,6 +1181,14 @@ def run(ctx):
         'injected_single_name_forms': '[p] with all call shapes; p as str: signature and metadata, call shapes for '
                                       '<= %d named parameters' % LIST_FORMS_LIMIT,
         'explicit_empty_arguments(metadata part)': list(EMPTY_FORMS),
+        'keyword_options(metadata part, functions not decorated before)': [dict(o) for o in OPTIONS],
+        'wrappers_part': dict(wbounds, functions=len(wspecs), wrapper_kinds=list(WRAPPER_KINDS),
+                              injected_and_expected_with=list(RECORDER_KINDS),
+                              call_shapes='wraps(f)(wrapper): all for the kinds %s, for the other kinds on functions '
+                                          'with <= %d named parameters; update_wrapper / injected / expected: '
+                                          'functions with <= %d named parameters; signature and metadata beyond'
+                                          % ('+'.join(WRAPPER_KINDS[:2]), WRAPPER_KIND_CALLS_LIMIT[ctx.tier],
+                                             WRAPPER_CALLS_LIMIT[ctx.tier])),
         'second_application_of_the_decorator': 'functions with <= %d named parameters, every wraps(...) variant '
                                                'except iterator-valued injected: own signature of the second product'
                                                % SECOND_LIMIT,
@@ -981,6 +1220,12 @@ def run(ctx):
         'the decorator returned by wraps() is a product of wraps each time it is applied: the second application '
         'must give the same own signature; explored for functions with <= 2 named parameters, not for iterator-valued injected (spent by the first use)',
         'positional-only parameters are outside the statement and not generated',
+        'the wrapper may be any callable; a functools.partial of f itself is passed with nothing bound (with bound '
+        'arguments update_wrapper documents that the partial\'s narrowed signature is used: outside the statement); '
+        'a spelled-out wrapper forwards every parameter, so f must see its own defaults, not the wrapper\'s look-alikes',
+        'with hide_wrapped=True the __wrapped__ clause is not demanded (nor its absence); build_from is only passed as '
+        'f itself and only to update_wrapper (wraps(f, build_from=...) raises TypeError today: wraps passes its own '
+        'build_from=None; the statement does not mention build_from)',
     ]
 
 
